@@ -535,8 +535,7 @@ func overheadStreams(r *hk.Rand, quick bool) []fixedStream {
 			fixedStream{mk(1040, 16, 17, "1\r\nZ\r\n0\r\n\r\n"), "overhead-16385-more"},
 			fixedStream{mk(4095, 5, 0, "0\r\n\r\n"), "overhead-4095x5"},
 			// a large data chunk must not buy credit for later overhead (the balance is clamped at 0)
-			fixedStream{append([]byte("2328\r\n"+strings.Repeat("D", 9000)+"\r\n"), mk(1040, 17, 0, "0\r\n\r\n")...), "overhead-after-large-chunk"},
-			fixedStream{append([]byte("10000\r\n"+strings.Repeat("D", 65536)+"\r\n"), mk(1004, 40, 0, "0\r\n\r\n")...), "overhead-after-64k-chunk"})
+			fixedStream{append([]byte("2328\r\n"+strings.Repeat("D", 9000)+"\r\n"), mk(1040, 17, 0, "0\r\n\r\n")...), "overhead-after-large-chunk"})
 		for i := 0; i < 12; i++ {
 			ll := r.Range(17, 4095)
 			cnt := 16384/(ll-16) + r.Range(-1, 1)
